@@ -243,10 +243,11 @@ def _first_divergence(ops, sut, refs):
         ref = refs[k]
         if ref is None:
             continue
-        if op.get("abort_at") and _aborted(r) != _aborted(ref):
-            # the asynchronous abort landed in one execution and not in the other (history changes how many lines a
-            # call runs, e.g. a warm per-instance cache): the aborted call's own outcome is not comparable – what it
-            # must not do is leave anything behind, and that is what every later op and audit checks
+        if op.get("abort_at") and (_aborted(r) or _aborted(ref)):
+            # the asynchronous abort landed (in one execution or in both, possibly at different depths: history changes
+            # how many lines a call runs, e.g. a warm per-instance cache, so one side may already have talked to the
+            # solver): the aborted call's own outcome is not comparable – what it must not do is leave anything
+            # behind, and that is what every later op and audit checks
             continue
         if "operr" in r:
             return {"kind": "operr", "at": k, "sut": r, "ref": ref}
